@@ -30,6 +30,7 @@ def run(ctx):
     ctx.assumptions += ["N: equality on concrete blocks; rebuilt generators having the same conditions"]
     c09_1(ctx)
     c09_2(ctx)
+    c09_shapes(ctx)
     c09_3(ctx)
 
 
@@ -200,6 +201,30 @@ def _is_eq(x):
     return re.search(r"\('(\w+::)?[eE]q'", x) is not None
 
 
+def c09_shapes(ctx):
+    """full validation (without STRICT_ARGS_COUNT) ignores trailing items of a spend, of a condition and of the memo list: the
+    fast paths must decode with open tails — no tuple shape may demand a nil terminator `()`"""
+    R = "C09.2"
+    fb = ctx.fb
+    n = 0
+    for path in (CC + "additions_and_removals::additions_and_removals", CC + "run_block_generator::get_coinspends_for_trusted_block",
+                 CC + "run_block_generator::get_coinspends_with_conditions_for_trusted_block", "chia_protocol::spend_bundle::SpendBundle::additions"):
+        f = _fn(fb, path)
+        if not f:
+            continue
+        b = Body(f, fb)
+        shapes = []
+        for bi, nm, t in b.calls():
+            if nm.endswith("::from_clvm") and nm.startswith("<("):
+                shapes.append(nm[1:nm.index(" as clvm_traits")])
+        n += len(shapes)
+        closed = [x for x in shapes if "()" in x]
+        ctx.ob(R, "open-tails:" + path.split("::")[-1], not closed,
+               "%s decodes spends / conditions / memos with open tails (trailing items are ignored, as in full validation)" % path.split("::")[-1],
+               found=closed or None, where=f.sp)
+    ctx.floor(R, "tuple decode shapes inspected", n, 4)
+
+
 def c09_3(ctx):
     R = "C09.3"
     b = U.body(ctx, R, CC + "get_puzzle_and_solution::get_puzzle_and_solution_for_coin")
@@ -228,6 +253,15 @@ def c09_3(ctx):
             r = apnf.N(b.rvalue_term(rv))
     ok = bool(r) and ".2" in str(r) and ".3" in str(r) and "parse_coin_spend" in str(r)
     ctx.ob(R, "lookup-returns", ok, "the returned pair is (puzzle, solution) of the matching spend", found=str(r)[:200])
+    # completeness: "not found" is reported only once the whole list was scanned — a mismatching spend moves on to the next one
+    nf = [bi for bi, k, d, rv in b.ret_assignments() if k == "agg" and d[1] == "Err"]
+    ok = len(nf) == 1
+    if ok:
+        fs = [apnf.fact(t, lab) for t, lab in b.dominating_conditions(nf[0])]
+        ok = any(isinstance(t, tuple) and t[0] == "next" and v == "None" for t, v in fs) and \
+            not any(("find_coin" in str(t)) for t, v in fs)
+    ctx.ob(R, "lookup-complete", ok, "the not-found error is returned only after the spend list is exhausted (no early exit on a partial match)",
+           found=[str(f)[:120] for f in (fs if len(nf) == 1 else [])][:4], where=b.fn.sp)
     pb = U.body(ctx, R, CC + "get_puzzle_and_solution::parse_coin_spend")
     if pb:
         got = {(frozenset(f), r2) for f, r2, _ in apnf.paths_of(pb, want=("Ok",))}
